@@ -930,7 +930,7 @@ pub fn generate(cfg: &Cfg) -> Vec<String> {
             }
         }
         // --- random op sequences on one state
-        let count = (if cfg.thorough { 3000 } else { 150 }) * cfg.boost;
+        let count = (if cfg.thorough { 3000 } else { 500 }) * cfg.boost;
         let maxlen = if cfg.thorough { 70_000 } else { 4_000 };
         let grid = lengths(false);
         for n in 0..count {
